@@ -4,7 +4,7 @@ fn main() {
   let mut bad = 0;
   for seed in seed0..seed0 + 200 {
     let mut rng = vcore::rng::Rng::new(seed);
-    let t = vcore::exprgen::generic_zoo(&mut rng);
+    let t = vcore::exprgen::order_zoo(&mut rng);
     if seed == seed0 { println!("{t}"); }
     let p = Project::single("Zoo", &t).with_std();
     let mut heap = samlang_heap::Heap::new();
